@@ -100,6 +100,17 @@ pub struct AggPlan {
     pub refusals: bool,
 }
 
+/// Corruption of bytes at rest / of collector-bound shares (codec checks C07/C08 only).
+#[derive(Clone, Debug, Serialize, Deserialize, PartialEq)]
+pub struct StoreFault {
+    /// state | out | agg
+    pub what: String,
+    pub node: u8,
+    pub rep: u32,
+    pub ap: u32,
+    pub m: Mutation,
+}
+
 #[derive(Clone, Debug, Serialize, Deserialize, PartialEq)]
 pub struct Skew {
     /// ctx | vk | nonce | id | alg
@@ -131,6 +142,8 @@ pub struct PlanA {
     /// combiner proceeds with whatever it holds once the transport is idle
     #[serde(default)]
     pub timeouts: bool,
+    #[serde(default)]
+    pub store_faults: Vec<StoreFault>,
 }
 
 #[derive(Clone)]
@@ -153,6 +166,7 @@ pub enum JobEnd {
 }
 
 struct AggJob<S> {
+    store_corrupted: bool,
     round: u8,
     state_mem: Option<S>,
     state_bytes: Vec<u8>,
@@ -603,12 +617,12 @@ impl<'p, 'c, 'cc, V: SimVdaf<VK>, A: Adapter<V>, const VK: usize> World<'p, 'c, 
             match self.verify_init_job(j, rep, ap) {
                 Ok((state, sb, shb)) => {
                     self.ctx.trace.str("init_ok").u64(j as u64).bytes(&sb).bytes(&shb);
-                    self.nodes[j].jobs.insert((rep, ap), AggJob { round: 0, state_mem: Some(state), state_bytes: sb, share_bytes: shb.clone(), end: JobEnd::Running });
+                    self.nodes[j].jobs.insert((rep, ap), AggJob { store_corrupted: false, round: 0, state_mem: Some(state), state_bytes: sb, share_bytes: shb.clone(), end: JobEnd::Running });
                     self.send(Env { kind: EnvKind::VShare, rep, ap, from: j as u8, to: COMBINER, round: 0, parts: vec![shb], forced: false });
                 }
                 Err(e) => {
                     self.ctx.trace.str("init_err").u64(j as u64);
-                    self.nodes[j].jobs.insert((rep, ap), AggJob { round: 0, state_mem: None, state_bytes: Vec::new(), share_bytes: Vec::new(), end: JobEnd::Failed(e) });
+                    self.nodes[j].jobs.insert((rep, ap), AggJob { store_corrupted: false, round: 0, state_mem: None, state_bytes: Vec::new(), share_bytes: Vec::new(), end: JobEnd::Failed(e) });
                 }
             }
         }
@@ -617,9 +631,9 @@ impl<'p, 'c, 'cc, V: SimVdaf<VK>, A: Adapter<V>, const VK: usize> World<'p, 'c, 
     /// Current verify state of job (rep, ap) at node j: from memory, or after a crash from the
     /// store (resume) or by recomputation from the stored report (checked against the store).
     fn state_of(&mut self, j: usize, rep: u32, ap: u32) -> Option<V::VerifyState> {
-        let (has_mem, round, sbytes, shbytes, running) = {
+        let (has_mem, round, sbytes, shbytes, running, corrupted) = {
             let job = self.nodes[j].jobs.get(&(rep, ap))?;
-            (job.state_mem.is_some(), job.round, job.state_bytes.clone(), job.share_bytes.clone(), job.end == JobEnd::Running)
+            (job.state_mem.is_some(), job.round, job.state_bytes.clone(), job.share_bytes.clone(), job.end == JobEnd::Running, job.store_corrupted)
         };
         if !running {
             return None;
@@ -629,7 +643,7 @@ impl<'p, 'c, 'cc, V: SimVdaf<VK>, A: Adapter<V>, const VK: usize> World<'p, 'c, 
         }
         let vdaf = self.vdaf;
         let id = self.node_id(j);
-        let st = if self.nodes[j].recompute && round == 0 {
+        let st = if self.nodes[j].recompute && round == 0 && !corrupted {
             self.ctx.probe("restart_recompute");
             match self.verify_init_job(j, rep, ap) {
                 Ok((state, sb, shb)) => {
@@ -646,7 +660,7 @@ impl<'p, 'c, 'cc, V: SimVdaf<VK>, A: Adapter<V>, const VK: usize> World<'p, 'c, 
         } else {
             self.ctx.probe("restart_resume");
             let st = mon_decode(self.ctx, "VerifyState", &sbytes, sbytes.len() + 4096, |b| vdaf.dec_state(id, b), |v| V::enc_state(v), |v| V::state_len_hint(v));
-            if st.is_none() {
+            if st.is_none() && !corrupted {
                 self.ctx.fail(Violation::new("C07.roundtrip", "VerifyState|restart", format!("stored verify state of aggregator {j} does not decode after restart")));
             }
             st
@@ -853,9 +867,21 @@ impl<'p, 'c, 'cc, V: SimVdaf<VK>, A: Adapter<V>, const VK: usize> World<'p, 'c, 
         self.ctx.fault("crash_restart");
         self.nodes[j].recompute = c.recompute;
         let mut mid = false;
-        for job in self.nodes[j].jobs.values_mut() {
+        let sfs: Vec<StoreFault> = self.plan.store_faults.iter().filter(|f| f.what == "state" && f.node as usize % self.n == j).cloned().collect();
+        let aps = self.plan.aps.clone();
+        for (key, job) in self.nodes[j].jobs.iter_mut() {
             if job.end == JobEnd::Running {
                 mid = true;
+                for f in &sfs {
+                    if f.rep == key.0 && f.ap == key.1 {
+                        let regions = self.ad.layout(Kind::State, j, job.round, &aps[key.1 as usize]);
+                        let (_, modulus) = self.ad.out_field(&aps[key.1 as usize]);
+                        if apply_mutation(&mut job.state_bytes, &f.m, &regions, modulus).is_some() {
+                            job.store_corrupted = true;
+                            self.ctx.counters.inc("fault.store_corrupt.state");
+                        }
+                    }
+                }
             }
             job.state_mem = None;
         }
@@ -934,6 +960,15 @@ impl<'p, 'c, 'cc, V: SimVdaf<VK>, A: Adapter<V>, const VK: usize> World<'p, 'c, 
                 let mut outs: Vec<V::OutputShare> = Vec::new();
                 for r in &included {
                     if let JobEnd::Finished(b) = &jobs[&(*r, ap)][j] {
+                        let mut b = b.clone();
+                        for f in self.plan.store_faults.iter().filter(|f| f.what == "out" && f.node as usize % self.n == j && f.rep == *r && f.ap == ap) {
+                            let regions = self.ad.layout(Kind::Out, j, 0, &self.plan.aps[ap as usize]);
+                            let (_, modulus) = self.ad.out_field(&self.plan.aps[ap as usize]);
+                            if apply_mutation(&mut b, &f.m, &regions, modulus).is_some() {
+                                self.ctx.counters.inc("fault.store_corrupt.out");
+                            }
+                        }
+                        let b = &b;
                         match mon_decode(self.ctx, "OutputShare", b, b.len() + 4096, |x| V::OutputShare::get_decoded_with_param(&(vdaf, &apv), x), |v| v.get_encoded(), |v| v.encoded_len()) {
                             Some(o) => outs.push(o),
                             None => ok = false,
@@ -1057,7 +1092,15 @@ impl<'p, 'c, 'cc, V: SimVdaf<VK>, A: Adapter<V>, const VK: usize> World<'p, 'c, 
             }
             let mut dec = Vec::new();
             for &j in &order {
-                let b = &agg_shares[j];
+                let mut b = agg_shares[j].clone();
+                for f in self.plan.store_faults.iter().filter(|f| f.what == "agg" && f.node as usize % self.n == j && f.ap == ap) {
+                    let regions = self.ad.layout(Kind::AggShare, j, 0, &self.plan.aps[ap as usize]);
+                    let (_, modulus) = self.ad.out_field(&self.plan.aps[ap as usize]);
+                    if apply_mutation(&mut b, &f.m, &regions, modulus).is_some() {
+                        self.ctx.counters.inc("fault.store_corrupt.agg");
+                    }
+                }
+                let b = &b;
                 if let Some(s) = mon_decode(self.ctx, "AggregateShare", b, b.len() + 4096, |x| V::AggregateShare::get_decoded_with_param(&(vdaf, &apv), x), |v| v.get_encoded(), |v| v.encoded_len()) {
                     dec.push(s);
                 }
